@@ -702,7 +702,7 @@ func (h *Handle) SetAttr(valid p9.SetAttrMask, attr p9.SetAttr) error {
 	if valid.GID {
 		n.GID = attr.GID
 	}
-	if valid.Size && !n.IsDir() {
+	if valid.Size && !n.IsDir() && attr.Size < 1<<31 {
 		if int(attr.Size) <= len(n.Data) {
 			n.Data = n.Data[:attr.Size]
 		} else if attr.Size < 1<<20 {
@@ -826,6 +826,10 @@ func (h *Handle) WriteAt(p []byte, offset int64) (int, error) {
 	k := len(p)
 	if a != nil && a.Override != nil && a.Override.N != nil && *a.Override.N < k {
 		k = *a.Override.N
+	}
+	if offset < 0 {
+		c.Err = linux.EINVAL
+		return 0, linux.EINVAL
 	}
 	if offset > 1<<24 {
 		// sparse far writes: keep only bookkeeping (content model lives in the caller)
